@@ -54,6 +54,11 @@ namespace igris
             return sl.len;
         }
 
+        size_t cursor() const
+        {
+            return sl.cursor;
+        }
+
         size_t maximum_size() const
         {
             return ::sline_size(&sl);
